@@ -49,6 +49,21 @@ def oracle_store_unit(prop):
     return out
 
 
+# A-PROMPT (the prompt callback returns an answer or raises, and leaves the list of waiting lines it is shown alone) is an
+# assumption about arbitrary callbacks; for the callback habutax itself ships (habutax.prompt_input) it is proved: its unit is part of
+# every property whose solver obligations rest on A-PROMPT.
+PROMPT_USERS = ('C01', 'C06', 'C13', 'C20')
+
+
+def prompt_callback_unit(prop):
+    from . import c11
+    out = []
+    for o in c11.prompt_unit():
+        o.id = o.id.replace('C11/', f'{prop}/callback/')
+        out.append(o)
+    return out
+
+
 def unit_runner(name):
     if name == 'solve':
         return su.unit_solve(True)[0]
@@ -73,6 +88,8 @@ def gather(prop, tier, seed, extra_tasks=()):
     tasks += list(extra_tasks)
     if prop in ORACLE_USERS:
         tasks.append(Task('oracle/InputStore', oracle_store_unit, prop))
+    if prop in PROMPT_USERS:
+        tasks.append(Task('callback/prompt_input', prompt_callback_unit, prop))
     obs = oblig.run_tasks(tasks, jobs=4)
     sel = SELECT[prop]
     solver_obs = [o for o in obs if o.id.startswith('SOLVER/') and (sel(o.id.split('/', 1)[1]) or any(k in o.id for k in ALWAYS))]
